@@ -17,8 +17,10 @@ simulation (`sim`), then for Go's bit-twiddled position numbers (`pos|1`, `pos>>
 `enc (h, i) = 2^(D+1) − 2^(D+1−h) + i` (`EncLaws`, `encLaws`).  Position arithmetic is on `Nat`;
 Go's `uint32` agrees for transaction counts up to 2^30; since the `fix:` commit 4d1f67bc the code
 rejects counts above `pact.MaxTxPerBlock` (`maxTx`, 10000 by default) first, and so does the model.
-What is *not* proved and is only tied by differential execution: that `GetTxMerkleBranch`'s node
-table lookups (`branchOf`) produce the abstract branch of `C08_branch` (claim for that part: partial).
+`GetTxMerkleBranch` is covered too (`C08_branch_real`): the node table of `getNodes` equals the
+recursive parser's table under the position encoding, holds the full-tree hashes, contains the leaf of
+every matched transaction and its route nodes, `calcTxIndex` finds the leaf, and the collection loop
+returns the ideal branch.
 -/
 namespace ElaVerif.C08
 open ElaVerif.Merkle ElaVerif.PMT
@@ -208,6 +210,39 @@ theorem C08_branch (H : α → α → α) (zero : α) (txs : List α) (i : Nat) 
   have : ¬ ((idealIndex txs.length (treeDepth txs.length) 0 i : Nat) : Int) = -1 := by omega
   rw [if_neg this]
   exact h3
+
+omit [DecidableEq α] in
+theorem map_some_inj : ∀ (a b : List α), a.map some = b.map some → a = b
+  | [], [], _ => rfl
+  | [], _ :: _, h => by simp at h
+  | _ :: _, [], h => by simp at h
+  | x :: a, y :: b, h => by
+      simp only [List.map_cons, List.cons.injEq, Option.some.injEq] at h
+      rw [h.1, map_some_inj a b h.2]
+
+/-- **The real `GetTxMerkleBranch`.**  For a block with duplicate-free transactions, an injective node
+    hash under which no transaction id is a node hash, and a *matched* transaction `i`: run on the merkle
+    block the node built (any flag padding), `GetTxMerkleBranch` — stack machine with Go positions, the
+    `getNodes` table, `calcTxIndex`, `calcBranchRoute`/`calcNodeIndex`, the collection loop — returns a branch
+    and index that `auxpow.GetMerkleRoot` evaluates to the block's merkle root. -/
+theorem C08_branch_real {H : α → α → α} (hinj : Injective2 H) (zero : α) (maxTx : Nat) (txs : List α)
+    (matched : List Bool) (hnd : txs.Nodup) (hne : txs ≠ []) (hmax : txs.length ≤ maxTx)
+    (hsep : ∀ a b, H a b ∉ txs) (i : Nat) (hi : i < txs.length) (hm : matched[i]?.getD false = true)
+    (pad : List Bool) :
+    ∃ root hs sibs idx k, calcHash H txs (treeDepth txs.length) 0 = some root ∧
+      (build H txs matched (treeHeight txs.length) 0).2 = hs.map some ∧
+      (∀ f, branchOf H maxTx txs.length root ((build H txs matched (treeHeight txs.length) 0).1 ++ pad) hs
+              txs[i] (k + f) = .ok (sibs, idx)) ∧
+      branchRoot H zero txs[i] sibs idx = root := by
+  obtain ⟨root, hs, sibs, k, h1, h2, h3, h4⟩ :=
+    branchOf_build hinj maxTx txs matched hnd hne hmax hsep i hi hm pad
+  obtain ⟨sibs', root', g1, g2, g3⟩ := C08_branch H zero txs i hi
+  have e1 : sibs' = sibs := by
+    have := g1.symm.trans h3
+    exact map_some_inj _ _ this
+  have e2 : root' = root := Option.some.inj (g2.symm.trans h1)
+  subst e1 e2
+  exact ⟨root', hs, sibs', _, k, h1, h2, h4, g3⟩
 
 /-- `calcNodeIndex` is the position encoding and `calcBranchRoute` lists the encoded ideal route. -/
 theorem C08_route_encodes (n ti : Nat) :
